@@ -10,7 +10,7 @@ dropped, the new top frame has level `k = idx - 1`. The node of level `k` is a c
 the best leaf; the child on the best path has a larger index in the cell than the child on the current path, hence has been
 processed and is complete (`bpB`); by `backjump_child_complete` the child on the current path is complete too.
 
-Ghost update: `gh' := { gh with vs := gh.vs.take (s.path.length - j - 1), bgs := γ :: gh.bgs }`, `lv1 = lv.drop j`.
+Ghost update (`dfs_leaf_eqbest_v`): `gh' := { gh with vs := gh.vs.take k, bgs := γ :: gh.bgs }` with `k = s.path.length - j - 1`, `lv1 = lv.drop j`.
 -/
 namespace CanonF
 open Relation
@@ -349,14 +349,28 @@ variable {n m : Nat} {nb : Nbrs} {rf : Nat} {r : IR.St}
 
 set_option linter.unusedVariables false in
 include hnb hA hD in
-/-- a leaf with the certificate of the best leaf: orbits merged, generator recorded, back-jump against `bestPath` -/
-theorem dfs_leaf_eqbest (lv : List (Nat × Nat)) (s s1 : LS) (gh : Gh) (hI : MInv n m nb s)
+/-- a leaf with the certificate of the best leaf: orbits merged, generator recorded, back-jump against `bestPath`;
+version with the ghost update explicit, and with the shape of the new state -/
+theorem dfs_leaf_eqbest_v (lv : List (Nat × Nat)) (s s1 : LS) (gh : Gh) (hI : MInv n m nb s)
     (hlv : LevelsOK s.op s.path s.choices lv) (hleaf : s.op.binDividers.len = n)
     (hJ : CertM n m nb lv false s) (h : DNodev n nb rf r gh lv s) (hs1 : leafNode n m s = .ok s1)
     (hJ1 : CertA n m nb lv s1)
     (hc1 : (compare s.op.value.toList s.currentBest.toList == 1 || s.count + 1 == 1) = false)
     (hc0 : (compare s.op.value.toList s.currentBest.toList == 0) = true) :
-    ∃ lv1, LevelsOK s1.op s1.path s1.choices lv1 ∧ DA n nb rf r lv1 s1 := by
+    ∃ lv1 k, LevelsOK s1.op s1.path s1.choices lv1 ∧
+      DAv n nb rf r
+        { gh with
+          vs := gh.vs.take k,
+          bgs := transport n s.bestPerm.toList s.op.order.toList :: gh.bgs } lv1 s1 ∧
+      ∃ (bo : Disjoint.DS) (b0 : Bool) (fo : Disjoint.DS) (merges : Bool) (gens' : Array (Sl Nat)) (ngens' : Nat)
+        (op' : OP) (j : Nat),
+        forRange (orbitStep s.op.order s.bestPermInv) n 0 (s.bestOrbits, false) = .ok (bo, b0) ∧
+        forRange (orbitStep s.op.order s.bestPermInv) n 0 (s.flOrbits, false) = .ok (fo, merges) ∧
+        (if merges = true then recordGenerator n s.op.order s.bestPermInv s.gens s.ngens
+          else Outcome.ok (s.gens, s.ngens)) = .ok (gens', ngens') ∧
+        j < s.path.length ∧ k = s.path.length - j - 1 ∧ lv1 = lv.drop j ∧ deageTimes j s.op = .ok op' ∧
+        s1 = { s with count := s.count + 1, bestOrbits := bo, flOrbits := fo, gens := gens', ngens := ngens',
+                      op := op', path := s.path.drop j, choices := s.choices.drop j } := by
   obtain ⟨hw, hG, hcov, haux, hoff⟩ := h
   have hc := hI.core
   obtain ⟨hvc, hspl⟩ := leaf_clean hc.part hleaf (hJ.2.2.1 rfl)
@@ -486,10 +500,8 @@ theorem dfs_leaf_eqbest (lv : List (Nat × Nat)) (s s1 : LS) (gh : Gh) (hI : MIn
       intro w hw'
       rw [show c - st = p by omega, ← g3a] at hw'
       exact hcompl w hw'
-    refine ⟨lv.drop j, ?_,
-      { gh with
-        vs := gh.vs.take (s.path.length - j - 1),
-        bgs := transport n s.bestPerm.toList s.op.order.toList :: gh.bgs }, ?_, ?_, ?_, ?_, ?_⟩
+    refine ⟨lv.drop j, s.path.length - j - 1, ?_, ⟨?_, ?_, ?_, ?_, ?_⟩,
+      bo, b0, fo, merges, gens', ngens', op', j, hl1, hl2, hrec, by omega, rfl, rfl, hdt', rfl⟩
     · obtain ⟨q1, q2, q3, q4, _⟩ := deageTimes_spec (StepQ.trivial n nb s.currentBest s.firstLeaf) j s.op op'
         hc.part hc.age (by rw [hI.age]; omega) trivial hdt'
       show LevelsOK op' (s.path.drop j) (s.choices.drop j) (lv.drop j)
@@ -551,6 +563,19 @@ theorem dfs_leaf_eqbest (lv : List (Nat × Nat)) (s s1 : LS) (gh : Gh) (hI : MIn
       have hp' : s.path.drop j = [] := hp
       rw [hq] at hp'
       cases hp'
+
+set_option linter.unusedVariables false in
+include hnb hA hD in
+/-- a leaf with the certificate of the best leaf: orbits merged, generator recorded, back-jump against `bestPath` -/
+theorem dfs_leaf_eqbest (lv : List (Nat × Nat)) (s s1 : LS) (gh : Gh) (hI : MInv n m nb s)
+    (hlv : LevelsOK s.op s.path s.choices lv) (hleaf : s.op.binDividers.len = n)
+    (hJ : CertM n m nb lv false s) (h : DNodev n nb rf r gh lv s) (hs1 : leafNode n m s = .ok s1)
+    (hJ1 : CertA n m nb lv s1)
+    (hc1 : (compare s.op.value.toList s.currentBest.toList == 1 || s.count + 1 == 1) = false)
+    (hc0 : (compare s.op.value.toList s.currentBest.toList == 0) = true) :
+    ∃ lv1, LevelsOK s1.op s1.path s1.choices lv1 ∧ DA n nb rf r lv1 s1 := by
+  obtain ⟨lv1, k, h1, h2, _⟩ := dfs_leaf_eqbest_v hnb hA hD lv s s1 gh hI hlv hleaf hJ h hs1 hJ1 hc1 hc0
+  exact ⟨lv1, h1, _, h2⟩
 
 end
 end CanonF
